@@ -187,7 +187,9 @@ def run(tier, seed, replay):
         "write; the real strict recover runs on each; outcome must be acked or acked+in-flight; evaluations = kill points. In a "
         "third of the histories the POWER-LOSS model runs at the same instants (fsync-every-write): per file the content of its "
         "last fsync/fdatasync or everything written, and every prefix of the directory changes (create/rename/unlink) made since "
-        "the last directory fsync; each distinct directory is recovered by the real code and must also be acked or acked+in-flight",
+        "the last directory fsync; each distinct directory is recovered by the real code and must also be acked or acked+in-flight, "
+        "and its referenced view (MANIFEST + listed segments + pointed snapshot) must be the view of an action prefix of the model "
+        "(hypothesis SameReferenced of theorem C01_power_loss_point)",
         ["power loss: whole-file granularity for un-synced bytes (synced-only or all), suffixes of un-synced directory changes",
          "periodic-fsync clause: theorems in Theorems/C01Periodic.lean over Persist/Periodic.lean, tied by coverage.periodic "
          "(byte-threshold rotation and snapshots under the periodic policy: oracle only, not modelled)"], extra=periodic_extra, also=ALSO)
